@@ -973,3 +973,30 @@ pub fn coin(denom: &str, amt: u128) -> Coin {
 pub fn enc<T: serde::Serialize>(m: &T) -> Vec<u8> {
     to_binary(m).unwrap().0
 }
+
+thread_local! {
+    static LAST_PANIC: RefCell<String> = RefCell::new(String::new());
+}
+
+/// quiet panic hook: contract panics are part of the simulated behaviour (a transaction abort), so
+/// nothing is printed; the message and location are kept per thread for harness-error reports
+pub fn install_panic_hook() {
+    std::panic::set_hook(Box::new(|info| {
+        let msg = if let Some(s) = info.payload().downcast_ref::<&str>() {
+            s.to_string()
+        } else if let Some(s) = info.payload().downcast_ref::<String>() {
+            s.clone()
+        } else {
+            "<non-string panic>".to_string()
+        };
+        let loc = info.location().map(|l| format!("{}:{}", l.file(), l.line())).unwrap_or_default();
+        if std::env::var("FZ_DEBUG").is_ok() && !loc.contains("/repo/") && !loc.contains(".cargo/registry") {
+            eprintln!("panic: {msg} at {loc}");
+        }
+        LAST_PANIC.with(|p| *p.borrow_mut() = format!("{msg} at {loc}"));
+    }));
+}
+
+pub fn last_panic() -> String {
+    LAST_PANIC.with(|p| p.borrow().clone())
+}
